@@ -23,7 +23,7 @@ Definition beq_oaddr (a b : res (option str)) : bool :=
 Definition b58_payload (sha256 : bytes -> bytes) (a : res (option str)) : res bytes :=
   match a with Ok (Some s) => decode_base58_checksum A sha256 s | _ => Err end.
 Definition segwit_prog (hrp : str) (a : res (option str)) : option (Z * list Z) :=
-  match a with Ok (Some s) => Bech32M.decode hrp s | _ => None end.
+  match a with Ok (Some s) => Spec.Bech32.spec_decode hrp s | _ => None end.
 
 Definition check_case (c : case) : Z :=
   match c with
